@@ -10,10 +10,11 @@ Oracle: token-carrying arguments/results, the documented return convention, exac
 """
 import random
 
-from twisted.internet import defer
+from twisted.internet import defer, task
 
 from harness import busnet, clientfix, gen, ref_grammar as G
 from harness.ref_codec import plain_eq
+from txdbus import client as C
 from txdbus import error as E
 from txdbus import interface as I
 from txdbus import marshal as M
@@ -305,6 +306,24 @@ class Run:
             for c_ in [exporter] + callers:
                 c_.set_immediate()
             ctx.count('scenarios_with_immediate_delivery')
+        unawaited = None
+        if sc.idx % 7 == 4:
+            # replies nobody waits for arrive among the awaited ones: the answer to a fire-and-forget Ping (the exporting
+            # side answers the standard interfaces whatever the flag says) and the answer to a call whose deadline has
+            # already passed.  They are nobody's result and the calls in flight beside them complete as always.
+            clock = task.Clock()
+            saved_reactor = C.reactor
+            C.reactor = clock
+            try:
+                cc = callers[0].conn
+                unawaited = [clientfix.Outcome(cc.callRemote('/exp', 'Ping', interface='org.freedesktop.DBus.Peer',
+                                                             destination=dest, expectReply=False)),
+                             clientfix.Outcome(cc.callRemote('/exp', 'Ping', interface='org.freedesktop.DBus.Peer',
+                                                             destination=dest, timeout=1.0))]
+                clock.advance(2.0)
+            finally:
+                C.reactor = saved_reactor
+            ctx.count('scenarios_with_unawaited_replies')
         # ---- issue the calls concurrently, then explore delivery orders
         outcomes = []
         for call in sc.calls:
@@ -359,6 +378,17 @@ class Run:
         ctx.counters['max_deliveries_per_execution'] = max(ctx.counters.get('max_deliveries_per_execution', 0), steps)
         # ---- verdicts
         ok = True
+        if unawaited is not None:
+            for what, out in zip(('fire-and-forget Ping', 'Ping with a deadline that passed before its reply'), unawaited):
+                if out.fired != 1:
+                    ctx.report('completed-%d-times' % out.fired, '%s completed %d times' % (what, out.fired), w, case)
+                    ok = False
+            late = unawaited[1]
+            if late.fired == 1 and sc.idx % 5 != 2 and not (late.results[0][0] == 'err' and
+                                                             isinstance(late.results[0][1].value, E.TimeOut)):
+                ctx.report('wrong-result', 'a call whose deadline passed before anything was delivered completed with %r' % (
+                    late.results,), w, case)
+                ok = False
         for call, out in zip(sc.calls, outcomes):
             spec = call['spec']
             cw = dict(w, call={'caller': call['caller'], 'method': call['method'], 'kind': spec['kind'],
